@@ -5,7 +5,8 @@
    Model/RemoteSpec.v (the specifications). *)
 From Oras Require Import Base.Prelude Base.Regex Generated.GC20 Generated.GC13 Model.Reference
   Model.Registry Model.RemoteClient Model.RemoteSpec
-  Model.Location Proofs.Reference Proofs.RemoteClient Proofs.RemoteSeek Proofs.RemoteRefine Proofs.Location Proofs.RemotePaged.
+  Model.Location Proofs.Reference Proofs.RemoteClient Proofs.RemoteSeek Proofs.RemoteRefine Proofs.Location Proofs.RemotePaged
+  Model.RefOps Proofs.RefURL Proofs.RemoteURL.
 
 (* ------------------------------------------------------------------ *)
 (* Refinement: the client run against the registry model behaves as the content store
@@ -183,6 +184,85 @@ Theorem C13_tag_schema_remove_then_absent :
           = ((g', n''), t', RDescs (clean_refs [] upd)).
 Proof. exact tag_schema_remove_then_absent. Qed.
 Print Assumptions C13_tag_schema_remove_then_absent.
+
+(* ... and at the level of the OPERATIONS, in any registry state of a registry WITHOUT the
+   Referrers API (manifests with subjects may already be stored: [minv] is [inv] without the
+   condition on who indexes subjects): Push of an accurate, indexable manifest whose subject is
+   sj succeeds, leaves the client in referrers state "unsupported", and Predecessors(sj) then
+   lists the old referrers followed by the pushed descriptor. *)
+Theorem C13_push_subject_then_predecessors :
+  forall (H : str -> str) (parse_mt : str -> option str) (subject_of : str -> option (option desc))
+         (main other : str) (user_mts : list str) (limit : N) (skip_gc : bool)
+         (index_of : str -> option (list desc)) (p : profile),
+    (forall c, valid_digest (H c) = true) ->
+    (forall l, index_of (gen_index l) = Some l) ->
+    (forall l, subject_of (gen_index l) = Some None) ->
+    parse_mt mt_index = Some mt_index ->
+    forall g n rst d c sj old,
+      minv H parse_mt limit g -> p_referrers p = false -> rst <> RSSupported ->
+      is_manifest user_mts d = true -> indexable (d_mt d) = true ->
+      len c = d_sz d -> H c = d_dg d -> valid_digest (d_dg d) = true ->
+      parse_mt (d_mt d) = Some (d_mt d) -> len c <= limit ->
+      subject_of c = Some (Some sj) -> valid_digest (d_dg sj) = true ->
+      let tag := ref_tag (d_dg sj) in
+      resolve_ref main tag = Some tag -> valid_digest tag = false ->
+      p_clen p = true \/ p_dighdr p = true ->
+      index_state g tag old -> NoDup (map fst (g_tags g)) ->
+      (forall od l0, old = Some (od, l0) -> od <> d_dg d) ->
+      let l := match old with Some (_, l) => l | None => [] end in
+      let upd := clean_refs [] l ++ [d] in
+      existsb (RemoteClient.desc_eqb d) (clean_refs [] l) = false ->
+      len (gen_index upd) <= limit ->
+      skip_gc = true \/ (forall od l0, old = Some (od, l0) -> od <> H (gen_index upd)) ->
+      exists g' n' t,
+        run_op H parse_mt subject_of main other user_mts limit skip_gc index_of (reg * N)
+               (cexch H subject_of main other p None) (g, n) rst (OPush d c)
+        = ((g', n'), RSUnsupported, t, ROk) /\
+        minv H parse_mt limit g' /\
+        exists n'' t',
+          run_op H parse_mt subject_of main other user_mts limit skip_gc index_of (reg * N)
+                 (cexch H subject_of main other p None) (g', n') RSUnsupported (OPreds sj)
+          = ((g', n''), RSUnsupported, t', RDescs (clean_refs [] upd)).
+Proof. exact push_subject_then_predecessors. Qed.
+Print Assumptions C13_push_subject_then_predecessors.
+
+(* ... and Delete of a stored manifest with subject sj (client in referrers state "unsupported",
+   as the theorem above leaves it): the referrer is taken out of the index, the manifest is deleted,
+   Predecessors(sj) lists the remaining referrers. *)
+Theorem C13_delete_subject_then_predecessors :
+  forall (H : str -> str) (parse_mt : str -> option str) (subject_of : str -> option (option desc))
+         (main other : str) (user_mts : list str) (limit : N) (skip_gc : bool)
+         (index_of : str -> option (list desc)) (p : profile),
+    (forall c, valid_digest (H c) = true) ->
+    (forall l, index_of (gen_index l) = Some l) ->
+    (forall l, subject_of (gen_index l) = Some None) ->
+    parse_mt mt_index = Some mt_index ->
+    forall g n d c sj od l,
+      minv H parse_mt limit g -> p_referrers p = false ->
+      is_manifest user_mts d = true -> indexable_del (d_mt d) = true ->
+      lookup (d_dg d) (g_mans g) = Some (d_mt d, c) -> len c = d_sz d -> valid_digest (d_dg d) = true ->
+      subject_of c = Some (Some sj) -> valid_digest (d_dg sj) = true ->
+      let tag := ref_tag (d_dg sj) in
+      resolve_ref main tag = Some tag -> valid_digest tag = false ->
+      p_clen p = true \/ p_dighdr p = true ->
+      index_state g tag (Some (od, l)) -> NoDup (map fst (g_tags g)) ->
+      od <> d_dg d ->
+      let upd := filter (fun x => negb (RemoteClient.desc_eqb d x)) (clean_refs [] l) in
+      existsb (RemoteClient.desc_eqb d) (clean_refs [] l) = true ->
+      len (gen_index upd) <= limit ->
+      H (gen_index upd) <> d_dg d ->
+      skip_gc = true \/ od <> H (gen_index upd) ->
+      exists g' n' t,
+        run_op H parse_mt subject_of main other user_mts limit skip_gc index_of (reg * N)
+               (cexch H subject_of main other p None) (g, n) RSUnsupported (ODelete d)
+        = ((g', n'), RSUnsupported, t, ROk) /\
+        minv H parse_mt limit g' /\ lookup (d_dg d) (g_mans g') = None /\
+        exists n'' t',
+          run_op H parse_mt subject_of main other user_mts limit skip_gc index_of (reg * N)
+                 (cexch H subject_of main other p None) (g', n') RSUnsupported (OPreds sj)
+          = ((g', n''), RSUnsupported, t', RDescs (clean_refs [] upd)).
+Proof. exact delete_subject_then_predecessors. Qed.
+Print Assumptions C13_delete_subject_then_predecessors.
 
 (* ... end to end on a concrete registry without the API: Push of a manifest with a subject makes
    Predecessors list it and the referrers tag resolve to the generated index (the JSON the
@@ -481,6 +561,33 @@ Theorem C13_corruption_rejected_mount :
        (r_status r = 202 /\ rest <> [] /\ r_loc r <> None)).
 Proof. exact blob_mount_consistent. Qed.
 Print Assumptions C13_corruption_rejected_mount.
+
+(* ------------------------------------------------------------------ *)
+(* URL construction (url.go; [request_url] is compared with the URL of every real request):
+   composition of the request grammar with C20_url_exact.  For every request of the grammar
+   (C13_requests_allowed: all the client emits), against a registry name net/url accepts
+   ([reg_clean], C20's single fact about net/url), the URL is -- under RFC 3986 splitting --
+   scheme://host/v2/<repository>/{manifests|blobs|referrers}/<reference> with exactly these path
+   segments, no user info, no query, no fragment (the referrers page-size extension ?n= aside);
+   the upload POST without mount goes to /v2/<repository>/blobs/uploads/ . *)
+Theorem C13_request_url_exact :
+  forall (vr : str -> bool) plain host page q,
+    (forall reg, vr reg = true -> reg_clean reg = true) ->
+    vr host = true -> contains c_slash host = false ->
+    allowed q = true ->
+    match q_ep q with
+    | EManifest r => url_is (request_url plain host page q) plain (mkRef host (q_repo q) r) (b "manifests")
+    | EBlob d => url_is (request_url plain host page q) plain (mkRef host (q_repo q) d) (b "blobs")
+    | EReferrers d =>
+        page = 0 -> url_is (request_url plain host page q) plain (mkRef host (q_repo q) d) (b "referrers")
+    | EUploads =>
+        q_mount q = None ->
+        url_split (request_url plain host page q)
+        = Some (mkParts (scheme plain) (host_of host) (b "/v2/" ++ q_repo q ++ b "/blobs/uploads/") None None)
+    | ESession _ => True
+    end.
+Proof. exact request_url_exact. Qed.
+Print Assumptions C13_request_url_exact.
 
 (* ------------------------------------------------------------------ *)
 (* Step 2 of the two-step upload (Model/Location.v, completePushAfterInitialPost): the PUT
